@@ -42,6 +42,12 @@ Theorem C09_source_follows_refill_pattern :
   stream_nul_without_refill = [] /\ stream_cursor_not_saved = [] /\ stream_nul_branches <> 0%nat.
 Proof. split; [reflexivity|split; [reflexivity|]]. vm_compute. intro H; discriminate H. Qed.
 
+(* a refill may move the buffer to a larger allocation: every function that keeps a raw pointer into the buffer
+   takes it again after any call that may refill, before it reads through it (translator rule R3; the repaired
+   defect "escaped struct key across a refill" is the two places this list had) *)
+Theorem C09_no_stale_buffer_pointer : stream_stale_pointer = [] /\ stream_pointer_holders <> 0%nat.
+Proof. split; [reflexivity|]. vm_compute. intro H; discriminate H. Qed.
+
 (* instance run against the implementation by the harness (op c09.bool): a number cut short by a failing reader *)
 Example C09_ex_bool :
   bool_decode [32; 116; 114; 117; 101; 32] [2; 3]%nat = Value bres (BAccept (Some true)) 5%nat /\
